@@ -48,6 +48,7 @@ TRUSTED_BASE = [
     "harness/c13.py SimNet: the simulated internet and NAT boxes; the Lean model's `route` implements the same rules and is compared packet by packet",
     "real NAT behaviour in time (WHEN a mapping or filter entry expires, packet loss, reordering between the puncture and the requester's next request) is outside the model; packets are processed in FIFO order until quiescence; THAT a mapping is renewed or a node roams between contacts is a history event (remap) of model and simulator",
     "signatures and the wire codec are exercised by the real nodes but are not part of the model (a message is its decoded fields)",
+    "read-only observers wrapped around Network.add_verified_peer / discover_address / get_walkable_addresses and Community.on_introduction_response classify which branch the real code takes; a run in which a class of REQUIRED_BRANCHES is never reached exits 2 (lost coverage), it never changes a verdict otherwise",
 ]
 ASSUMPTIONS = [
     "cone NATs only: endpoint-independent mapping (symmetric NAT excluded as in the property); boxes do not hairpin",
